@@ -17,7 +17,7 @@ Open Scope Z_scope.
 (* ------------------------------------------------------------------ symbolic values *)
 Record sval := { v_kind : Z;            (* 0 COO, 1 csr_matrix, 2 csc_matrix *)
                  v_shape : list Z;
-                 v_fill0 : bool }.
+                 v_fill : Z }.                 (* the fill value (integer-valued in the campaign) *)
 
 Definition W := list Z.
 Definition AT := option (list Z).        (* axes argument of transpose; None = default *)
@@ -60,7 +60,7 @@ Definition pre_t (v : sval) (a : AT) : pre (env W) :=
 
 Definition g_t (v : sval) (k : list W) : sval :=
   match k with
-  | [axes] => {| v_kind := 0; v_shape := map (fun a => nth (Z.to_nat a) (v_shape v) 0) axes; v_fill0 := v_fill0 v |}
+  | [axes] => {| v_kind := 0; v_shape := map (fun a => nth (Z.to_nat a) (v_shape v) 0) axes; v_fill := v_fill v |}
   | _ => v
   end.
 
@@ -75,7 +75,8 @@ Definition pre_r (v : sval) (a : AR) : pre (env W) :=
       if existsb (Z.eqb (-1)) shape then
         let p := zprod (filter (fun d => negb (d =? -1)) shape) in
         (* known = product of the given extents; ValueError if known == 0 or size % known != 0 *)
-        if (p =? 0) || negb (size mod p =? 0) then Raise ValueError
+        if (1 <? Z.of_nat (List.length (filter (Z.eqb (-1)) shape))) || (p =? 0) || negb (size mod p =? 0)
+        then Raise ValueError
         else let extra := size / p in Ok (map (fun d => if d =? -1 then extra else d) shape)
       else Ok shape in
     match inferred with
@@ -85,43 +86,53 @@ Definition pre_r (v : sval) (a : AR) : pre (env W) :=
 
 Definition g_r (v : sval) (k : list W) : sval :=
   match k with
-  | [sh] => {| v_kind := 0; v_shape := sh; v_fill0 := v_fill0 v |}
+  | [sh] => {| v_kind := 0; v_shape := sh; v_fill := v_fill v |}
   | _ => v
   end.
 
-Definition guard_m (v : sval) : option exc := if v_fill0 v then None else Some ValueError.
-Definition mk_csr (v : sval) : res sval :=
-  if Nat.eqb (List.length (v_shape v)) 2 then Ok {| v_kind := 1; v_shape := v_shape v; v_fill0 := v_fill0 v |}
+Definition guard_m (v : sval) : option exc := if v_fill v =? 0 then None else Some ValueError.
+(* COO(x, fill_value=f) *)
+Definition refill (v : sval) (f : Z) : sval := {| v_kind := v_kind v; v_shape := v_shape v; v_fill := f |}.
+Definition mk_csr (v : sval) : res sval :=      (* a scipy matrix has no fill value: built from coords/data only *)
+  if Nat.eqb (List.length (v_shape v)) 2 then Ok {| v_kind := 1; v_shape := v_shape v; v_fill := 0 |}
   else Raise ValueError.
-Definition csr2csc (m : sval) : sval := {| v_kind := 2; v_shape := v_shape m; v_fill0 := v_fill0 m |}.
-Definition csc2csr (m : sval) : sval := {| v_kind := 1; v_shape := v_shape m; v_fill0 := v_fill0 m |}.
+Definition csr2csc (m : sval) : sval := {| v_kind := 2; v_shape := v_shape m; v_fill := v_fill m |}.
+Definition csc2csr (m : sval) : sval := {| v_kind := 1; v_shape := v_shape m; v_fill := v_fill m |}.
 
-Definition jrun := coo_run sval W AT AR zl_eqb cache_cap pre_t g_t pre_r g_r guard_m mk_csr csr2csc csc2csr.
+(* the instance meets the hypothesis of Props.C11.cache_transparent about the oracle functions *)
+Lemma judge_mk_csr_refill : forall v f, mk_csr (refill v f) = mk_csr v.
+Proof. intros v f. reflexivity. Qed.
+
+Definition jrun := coo_run sval W AT AR Z zl_eqb cache_cap pre_t g_t pre_r g_r guard_m mk_csr csr2csc csc2csr refill.
 
 (* ------------------------------------------------------------------ cases *)
 (* one call: target (-1 = the root, i = what call i returned), kind (0 transpose, 1 reshape, 2 tocsr,
-   3 tocsc), argument, flag (reshape: order is C/None), visible (false: a call made internally by dot) *)
+   3 tocsc, 4 COO(t) [argument None] / COO(t, fill_value=f) [argument Some [f]],
+   5 t.copy() / t.copy(deep=False), 6 astype(copy=False) / asformat("coo")), argument, flag (reshape: order is C/None), visible (false: a call made internally by dot) *)
 Definition hop := (Z * Z * option (list Z) * bool * bool)%type.
 (* what the implementation showed for a call: status (0 ok, 1 ValueError, 2 NotImplementedError,
    3 OverflowError, 9 other, -1 not executed because its target call had raised), result shape,
    identity (index of the first visible call that returned the identical object, -1 = the root),
    value id (equal ids = equal shape/fill/coords/data or equal csr/csc arrays) *)
 Definition obs := (Z * list Z * Z * Z)%type.
-(* state of an object at the end: which object (first visible call returning it, -1 root),
-   transpose keys, reshape keys (oldest first), has _csr, has _csc *)
-Definition fin := (Z * list (list Z) * list (list Z) * bool * bool)%type.
+(* state of an object at the end: which object (first visible call returning it, -1 root), whether it
+   caches (_cache is not None), transpose keys, reshape keys (oldest first), has _csr, has _csc *)
+Definition fin := (Z * bool * list (list Z) * list (list Z) * bool * bool)%type.
 
 Definition hist_case :=
-  (list Z * bool * list hop * list obs * list obs * list fin * list (Z * Z))%type.
+  (list Z * Z * list hop * list obs * list obs * list fin * list (Z * Z))%type.
 
 Definition dec_target (t : Z) : target := if t <? 0 then TRoot else TOut (Z.to_nat t).
 
-Definition dec_op (h : hop) : target * op AT AR :=
+Definition dec_op (h : hop) : target * op AT AR Z :=
   let '(t, k, a, fl, _) := h in
   (dec_target t,
    if k =? 0 then OpT a
    else if k =? 1 then OpR (match a with Some l => l | None => [] end, fl)
-   else if k =? 2 then OpCsr else OpCsc).
+   else if k =? 2 then OpCsr
+   else if k =? 3 then OpCsc
+   else if k =? 4 then OpCopy (match a with Some (f :: _) => Some f | _ => None end)
+   else if k =? 5 then OpPickle else OpSame).
 
 Definition exc_code (e : exc) : Z :=
   match e with
@@ -180,23 +191,25 @@ Definition id_of_vis (outs : list out) (i : Z) : option nat :=
   else match nth_error outs (Z.to_nat i) with Some (OObj id) => Some id | _ => None end.
 
 Definition check_fin (s : st sval (list W) (list W)) (f : fin) : bool :=
-  let '(i, tk, rk, hcsr, hcsc) := f in
+  let '(i, cached, tk, rk, hcsr, hcsc) := f in
   match id_of_vis (outs s) i with
   | None => false
   | Some id =>
-    let c := caches s id in
-    list_eqb (list_eqb zl_eqb) (map fst (c_tr c)) (map (fun k => [k]) tk)
-    && list_eqb (list_eqb zl_eqb) (map fst (c_rs c)) (map (fun k => [k]) rk)
-    && Bool.eqb (match c_csr c with Some _ => true | None => false end) hcsr
-    && Bool.eqb (match c_csc c with Some _ => true | None => false end) hcsc
+    let c := deqs s (cell s id) in
+    let a := attr s id in
+    Bool.eqb (flag s id) cached
+    && (negb cached || (list_eqb (list_eqb zl_eqb) (map fst (d_tr c)) (map (fun k => [k]) tk)
+                        && list_eqb (list_eqb zl_eqb) (map fst (d_rs c)) (map (fun k => [k]) rk)))
+    && Bool.eqb (match a_csr a with Some _ => true | None => false end) hcsr
+    && Bool.eqb (match a_csc a with Some _ => true | None => false end) hcsc
   end.
 
 Definition judge_hist (c : hist_case) : Z :=
-  let '(rshape, fill0, ops, oc, ou, fins, dots) := c in
-  let root := {| v_kind := 0; v_shape := rshape; v_fill0 := fill0 |} in
+  let '(rshape, fill, ops, oc, ou, fins, dots) := c in
+  let root := {| v_kind := 0; v_shape := rshape; v_fill := fill |} in
   let h := map dec_op ops in
-  let sc := jrun true h (init sval _ _ root) in
-  let su := jrun false h (init sval _ _ root) in
+  let sc := jrun h (init sval _ _ true root) in
+  let su := jrun h (init sval _ _ false root) in
   (* the property itself first: cached and uncached twin agree call by call *)
   if negb (check_vids ops oc ou && forallb (fun p => fst p =? snd p) dots) then 5 else
   let r1 := check_obs (vals sc) ops (outs sc) ops (outs sc) oc 1 2 3 in
@@ -210,9 +223,9 @@ Definition count_ids (outs : list out) : Z :=
   Z.of_nat (List.length (filter (fun o => match o with OObj _ => true | _ => false end) outs)).
 
 Definition tag_hist (c : hist_case) : Z :=
-  let '(rshape, fill0, ops, oc, ou, fins, dots) := c in
-  let root := {| v_kind := 0; v_shape := rshape; v_fill0 := fill0 |} in
-  let sc := jrun true (map dec_op ops) (init sval _ _ root) in
+  let '(rshape, fill, ops, oc, ou, fins, dots) := c in
+  let root := {| v_kind := 0; v_shape := rshape; v_fill := fill |} in
+  let sc := jrun (map dec_op ops) (init sval _ _ true root) in
   (* objects returned minus objects created = calls answered by an existing object *)
   count_ids (outs sc) - (Z.of_nat (List.length (vals sc)) - 1).
 
